@@ -134,6 +134,7 @@ static bool gen_one(qop *op, gctx c) {
 	op->kind = kinds[g_n((uint32_t)nk)];
 	if (G->apply_weight && (G->opmask & (1u << OP_APPLY)) && !c.noblock && !G->gate && g_chance(G->apply_weight, 100)) op->kind = OP_APPLY;
 	op->form = (int)g_n(2);
+	if (op->kind == OP_BARRIER_ASYNC && G->blockobj && g_chance(1, 3)) op->form = 2;
 	if (op->kind == OP_PAUSE) { op->depth = g_range(1, 200); return true; }
 	if (op->kind == OP_SUSPEND) {
 		// candidates: non-global, non-main, non-workloop queues
@@ -268,7 +269,7 @@ static void render_ops(qop *ops, int n, int ind) {
 		else if (op->kind == OP_SUSPEND) h_sample("(q%d) x%d resume=%s", op->q, op->depth, op->body_arg == 1 ? "async" : "inline");
 		else if (op->kind == OP_ACTIVATE) h_sample("(q%d)", op->q);
 		else if (op->kind == OP_APPLY) h_sample("(%d, %s%d) items %d..%s", op->apply_n, op->apply_auto ? "AUTO/q" : "q", op->q, op->item, op->body == B_NEST ? " body=nest(iteration 0)" : "");
-		else h_sample("%s(q%d) item %d body=%s%s", op->form ? "" : "_f", op->q, op->item,
+		else h_sample("%s(q%d) item %d body=%s%s", op->form == 2 ? "[BARRIER block object via dispatch_async]" : op->form ? "" : "_f", op->q, op->item,
 			op->body == B_EMPTY ? "empty" : op->body == B_YIELD ? "yield" : op->body == B_SLEEP ? "sleep" : op->body == B_NEST ? "nest" : "wait-later",
 			"");
 		if (op->body == B_WAIT_LATER) h_sample("(item %d)", op->wait_item);
@@ -501,7 +502,14 @@ static void run_one(qop *op, int client, qitem *from) {
 	h_log("call %s item %d q%d", opnames[op->kind], it->id, op->q);
 	switch (op->kind) {
 	case OP_ASYNC: if (op->form) dispatch_async(q, ^{ item_body(it); }); else dispatch_async_f(q, it, item_fn); break;
-	case OP_BARRIER_ASYNC: if (op->form) dispatch_barrier_async(q, ^{ item_body(it); }); else dispatch_barrier_async_f(q, it, item_fn); break;
+	case OP_BARRIER_ASYNC:
+		if (op->form == 2) {
+			// a block object created with DISPATCH_BLOCK_BARRIER submitted with plain dispatch_async
+			dispatch_block_t bo = dispatch_block_create(DISPATCH_BLOCK_BARRIER, ^{ item_body(it); });
+			dispatch_async(q, bo);
+			Block_release(bo);
+		} else if (op->form) dispatch_barrier_async(q, ^{ item_body(it); }); else dispatch_barrier_async_f(q, it, item_fn);
+		break;
 	case OP_GROUP_ASYNC: if (op->form) dispatch_group_async(grp, q, ^{ item_body(it); }); else dispatch_group_async_f(grp, q, it, item_fn); break;
 	case OP_SYNC: if (op->form) dispatch_sync(q, ^{ item_body(it); }); else dispatch_sync_f(q, it, item_fn); break;
 	case OP_BARRIER_SYNC: if (op->form) dispatch_barrier_sync(q, ^{ item_body(it); }); else dispatch_barrier_sync_f(q, it, item_fn); break;
